@@ -143,10 +143,12 @@ pub fn instantiate(sk: &Skeleton, key: &str, mode: &Mode) -> Vec<Line> {
             }
         };
         let k = i as i64;
+        // option fracq: concrete quantities with many decimals (fractional shares), still purchases of 100+ and sales of 10+
+        let frac = if sk.opt_i64("fracq").unwrap_or(0) == 1 { Decimal::new(if kind == Kind::Buy { 123456 + 1000 * k } else { 62500 + 7 * k }, 6) } else { zero };
         let (q, p, f) = match kind {
             Kind::Buy | Kind::Sell => (
                 // concrete defaults keep ledgers covered: purchases of 100+, sales of 10+
-                mk(mode.q, "q", Decimal::from(if kind == Kind::Buy { 100 + 3 * k } else { 10 + 3 * k }), true),
+                mk(mode.q, "q", Decimal::from(if kind == Kind::Buy { 100 + 3 * k } else { 10 + 3 * k }) + frac, true),
                 mk(mode.p, "p", Decimal::from(2 + k), false),
                 mk(mode.f, "f", Decimal::from(1 + (k % 3)), false),
             ),
